@@ -1271,6 +1271,79 @@ int main(int argc, char** argv)
             }
         }
     }
+    else if (subject == "arena-assign")
+    { // C05 / C12: move assignment and move construction between arenas in every combination of blocks in use and cached blocks on
+      // both sides. No model: the upstream ledger decides (every block back exactly once, newest first per arena, nothing after a
+      // release is written) together with the arena's own figures.
+        long cases = 0;
+        auto grid = [&](auto tag, const char* name)
+        {
+            using A = typename decltype(tag)::type;
+            constexpr bool cached = A::is_cached::value;
+            for (unsigned tu = 0; tu <= 2; ++tu)
+                for (unsigned tc = 0; tc <= (cached ? 2u : 0u); ++tc)
+                    for (unsigned su = 0; su <= 2; ++su)
+                        for (unsigned sc = 0; sc <= (cached ? 2u : 0u); ++sc)
+                            for (int form = 0; form < 2; ++form)
+                            {
+                                static int grp = 100;
+                                auto fill = [&](A& a, unsigned used, unsigned cache)
+                                {
+                                    std::vector<memory_block> bs;
+                                    for (unsigned i = 0; i < used + cache; ++i)
+                                    {
+                                        bs.push_back(a.allocate_block());
+                                        std::memset(bs.back().memory, 0x40 + int(i), bs.back().size);
+                                    }
+                                    for (unsigned i = 0; i < cache; ++i)
+                                        a.deallocate_block();
+                                    bs.resize(used);
+                                    return bs;
+                                };
+                                {
+                                    region.cur_group = ++grp;
+                                    A    s(block, RegionAlloc(region));
+                                    auto sb = fill(s, su, sc);
+                                    if (form == 0)
+                                    {
+                                        region.cur_group = ++grp;
+                                        A t(block, RegionAlloc(region));
+                                        fill(t, tu, tc);
+                                        t = std::move(s);
+                                        if (t.size() != su || t.cache_size() != sc || s.size() != 0 || s.cache_size() != 0)
+                                            oracle.fail(fmt("%s move assignment (target %u used / %u cached, source %u / %u): target holds %zu / %zu, source %zu / %zu",
+                                                            name, tu, tc, su, sc, t.size(), t.cache_size(), s.size(), s.cache_size()));
+                                        for (auto& b : sb)
+                                            if (!t.owns(b.memory))
+                                                oracle.fail(fmt("%s move assignment: the target does not own a block of the source", name));
+                                    }
+                                    else
+                                    {
+                                        A t(std::move(s));
+                                        if (t.size() != su || t.cache_size() != sc || s.size() != 0 || s.cache_size() != 0)
+                                            oracle.fail(fmt("%s move construction (source %u used / %u cached): new object holds %zu / %zu, source %zu / %zu", name,
+                                                            su, sc, t.size(), t.cache_size(), s.size(), s.cache_size()));
+                                    }
+                                }
+                                // both objects are gone: nothing of theirs may be outstanding
+                                if (!region.outstanding.empty())
+                                {
+                                    oracle.fail(fmt("%s %s (target %u used / %u cached, source %u / %u): %zu upstream block(s) never given back", name,
+                                                    form == 0 ? "move assignment" : "move construction", tu, tc, su, sc, region.outstanding.size()));
+                                    region.outstanding.clear();
+                                }
+                                region.take_events();
+                                ++cases;
+                            }
+        };
+        struct T1 { using type = memory_arena<growing_block_allocator<RegionAlloc>, true>; };
+        struct T2 { using type = memory_arena<growing_block_allocator<RegionAlloc>, false>; };
+        struct T3 { using type = memory_arena<fixed_block_allocator<RegionAlloc>, true>; };
+        grid(T1{}, "cached arena over a growing source");
+        grid(T2{}, "uncached arena over a growing source");
+        (void)sizeof(T3);
+        n_ops = cases;
+    }
     else if (subject == "minblock")
     { // C18: memory_stack / memory_arena constructed with min_block_size(n): the capacity is exactly n bytes, n bytes
       // (less the two fences of a debug build) are served from the first block, and the arena's block has n usable bytes
